@@ -202,6 +202,42 @@ func c14R2(c *Ctx) {
 	reFiles := regexp.MustCompile(`^φslice⟨\[\]\[:0\] \| append\(φslice, \[lang\.InputFile\{Name: "<stdin>", Reader: Stdin\}\]\[:\]\) \| append\(φslice, \[lang\.InputFile\{Name: (.+)\[i@(.+)\], Reader: os\.Open\((.+)\[i@(.+)\]\)#0\}\]\[:\]\)⟩$`)
 	mm := reFiles.FindStringSubmatch(files)
 	okFiles := mm != nil && mm[1] == mm[2] && mm[2] == mm[3] && mm[3] == mm[4] && strings.HasPrefix(mm[1], "phi(append(phi(flag.Args() | flag.Args()[1:] | nil), ")
+	// every path that was opened successfully becomes an input: the next path is not reached without the append
+	{
+		var open_ *ssa.Call
+		for _, call := range callsIn(run) {
+			if f := call.Common().StaticCallee(); f != nil && f.String() == "os.Open" {
+				open_, _ = call.(*ssa.Call)
+			}
+		}
+		var app *ssa.Call
+		allInstrs(run, func(in ssa.Instruction) {
+			call, ok := in.(*ssa.Call)
+			if !ok {
+				return
+			}
+			if bi, ok := call.Call.Value.(*ssa.Builtin); ok && bi.Name() == "append" && strings.Contains(call.Type().String(), "InputFile") && open_ != nil && dominatesInstr(open_, call) {
+				app = call
+			}
+		})
+		if open_ == nil || app == nil {
+			c.undecided("R2", "input-file-not-skipped", p.Pos(run.Pos()), "the os.Open call or the append of the opened file was not found")
+		} else {
+			var hdr *ssa.BasicBlock
+			for _, l := range rangeLoops(run, func(v ssa.Value) bool { return strings.HasPrefix(v.Type().String(), "[]string") }) {
+				if l.Body.Dominates(open_.Block()) {
+					hdr = l.Header
+				}
+			}
+			okEdge := open_.Block()
+			for _, s := range open_.Block().Succs {
+				if FactsOf(run).At(s).KnownNil(errValOf(open_)) {
+					okEdge = s
+				}
+			}
+			c.check(hdr != nil && !canSkip(okEdge, app.Block(), hdr), "R2", "input-file-not-skipped", p.InstrPos(app), "every successfully opened path is passed to the interpreter", "after a path was opened successfully the next path can be reached without the file having been added to the inputs: that input is silently ignored (no output, no error, status 0)")
+		}
+	}
 	c.check(okFiles, "R2", "input-files", p.InstrPos(ep), "files in argument order, each the opened file itself", "the input list passed to the interpreter is not `for each path in order: {Name: path, Reader: os.Open(path)}` / `{<stdin>, os.Stdin}`: "+files)
 	sel := p.Render(a[2])
 	c.check(sel == "var:cli.multiFlag" || sel == "*var:cli.multiFlag", "R2", "selectors", p.InstrPos(ep), "the -r accumulator, unchanged", "the selector list passed is "+sel)
@@ -336,6 +372,20 @@ func rootsPerValue(c *Ctx, rule string) {
 							}
 						}
 						c.check(len(extra) == 0, rule, "selector-root-unconditional", p.InstrPos(call), "the result of every selector is appended", "the root a selector yields is only processed under {"+strings.Join(extra, " ; ")+"}: a selector whose value is filtered out leaves $ (and what -o writes) at the previous root")
+						// and no way round the append: once the selector evaluated without error, the next
+						// selector is not reached without appending its result
+						for _, l := range rangeLoops(ep, func(v ssa.Value) bool { _, isP := v.(*ssa.Parameter); return isP && strings.HasPrefix(v.Type().String(), "[]string") }) {
+							if !l.Body.Dominates(sel.Block()) {
+								continue
+							}
+							okEdge := sel.Block()
+							for _, s := range sel.Block().Succs {
+								if FactsOf(ep).At(s).KnownNil(errValOf(sel)) {
+									okEdge = s
+								}
+							}
+							c.check(!canSkip(okEdge, call.Block(), l.Header), rule, "selector-root-not-skipped", p.InstrPos(call), "every successfully evaluated selector contributes a root", "after a selector evaluated without error the next selector can be reached without its result having been appended to the roots: that root is silently dropped, so `-r E` no longer behaves as `BEGINFILE { $ = E }`")
+						}
 					}
 				}
 			}
@@ -439,4 +489,14 @@ func evaluatorConstruction(c *Ctx, rule string) {
 			c.violated(rule, "installed-by-constructor "+name, p.Pos(ne.Pos()), "NewEvaluator does not call "+name+" (called from {"+strings.Join(dedup(elsewhere), ", ")+"} instead): an evaluator built for a root selector lacks it, so `-r 'num($.x)'` fails where `BEGINFILE { $ = num($.x) }` works")
 		}
 	}
+}
+
+// errValOf: the error result value of a call (nil if it has none / is not extracted)
+func errValOf(call ssa.CallInstruction) ssa.Value {
+	cv, ok := call.(*ssa.Call)
+	if !ok {
+		return nil
+	}
+	v, _ := errValueOf(cv)
+	return v
 }
